@@ -97,6 +97,36 @@ Fixpoint common_axis (axs : list axis) (j : join) : res axis :=
 
 (* np.sort of labels: via the argsort of Indexing *)
 Definition sort_labels (l : list label) : list label := map (nth_lab l) (argsort l).
+
+(* _keep_direction: the n-ary union is a succession of pairwise unions in which one-label axes (no direction of their
+   own) may meet first; when all the axes (empty ones and placeholders aside) are sorted the same way, numeric or all
+   str, the result is put in that order *)
+Definition all_str (l : list label) : bool := forallb (fun x => match x with LAt (AStr _) => true | _ => false end) l.
+Definition keep_direction (axs : list axis) (com : axis) : axis :=
+  let ins := filter (fun ax => negb (alen ax =? 0) && negb (is_none_axis ax)) axs in
+  if negb (forallb (fun ax => is_monotonic_labels (alab ax)) ins) then com else
+  match flat_map (fun ax => match slope (alab ax) with Some u => [u] | None => [] end) ins with
+  | [] => com
+  | u :: t =>
+      if negb (forallb (Bool.eqb u) t) then com
+      else if negb (forallb (fun ax => numeric_kind (akind ax)) ins || forallb (fun ax => all_str (alab ax)) ins) then com
+      else let want := if u then sort_labels (alab com) else rev (sort_labels (alab com)) in
+           if labels_eqb (alab com) want then com else ax_new (aname com) (akind com) want (aattrs com)
+  end.
+Definition common_axis_top (axs : list axis) (j : join) : res axis :=
+  let! ax := common_axis axs j in
+  match j, axs with
+  | Outer, _ :: _ :: _ :: _ =>
+      (* (the placeholder shortcuts of the last step return before the direction is looked at) *)
+      match axs with
+      | a0 :: _ => if is_none_axis a0 then Ok ax
+                   else match common_axis (tl axs) j with
+                        | Ok a1 => if (alen a1 =? 1) && is_none_axis a1 then Ok ax else Ok (keep_direction axs ax)
+                        | Err e => Err e end
+      | [] => Ok ax
+      end
+  | _, _ => Ok ax
+  end.
 Definition axis_sorted (a : axis) : axis :=
   {| aname := aname a; akind := akind a; alab := sort_labels (alab a); aattrs := aattrs a; amem := amem a |}.
 
@@ -114,7 +144,7 @@ Definition aligned_axes (arrays : list darr) (j : join) (ax_opt : option string)
   mapM (fun d =>
           let having := flat_map (fun a => match axis_of a d with Some x => [x] | None => [] end) arrays in
           if strict && negb (List.length having =? List.length arrays) then Err ValueError
-          else let! ax := common_axis having j in
+          else let! ax := common_axis_top having j in
                Ok (if sort then axis_sorted ax else ax)) ds.
 
 (* ------------------------------------------------------------------ take_axis / reindex_axis *)
